@@ -319,7 +319,7 @@ func sizeBoundedEdge(in ssa.Instruction, succ *ssa.BasicBlock, size ssa.Value, t
 	}
 	inChainWide := func(v ssa.Value) bool { return inChain(v) && wide(v) }
 	bounded := func(iff *ssa.If, br int) bool {
-		if upperBoundEdge(inChainWide, -1)(iff, br) {
+		if upperBoundEdge(inChainWide, maxDecodedAlloc)(iff, br) {
 			return true
 		}
 		r, ok := edgeRel(iff, br)
@@ -371,7 +371,7 @@ func sizeBoundedEdge(in ssa.Instruction, succ *ssa.BasicBlock, size ssa.Value, t
 	// a signed size needs a lower bound too, unless the upper bound was established on an unsigned
 	// value of the chain (then the later conversion to a signed type cannot produce a negative)
 	unsignedBound := func(iff *ssa.If, br int) bool {
-		return upperBoundEdge(func(v ssa.Value) bool { return inChainWide(v) && !isSigned(v.Type()) }, -1)(iff, br)
+		return upperBoundEdge(func(v ssa.Value) bool { return inChainWide(v) && !isSigned(v.Type()) }, maxDecodedAlloc)(iff, br)
 	}
 	if ok && isSigned(size.Type()) {
 		if okU, _ := mustPass(in, unsignedBound); okU || edgeIs(unsignedBound) {
@@ -667,16 +667,29 @@ func runC20(c *Check) {
 					for br := 0; br < 2; br++ {
 						if errNilEdge(sameCall(r), false)(iff, br) {
 							found = true
-							// successor on failure must not be able to continue the loop with further reads
-							if body[b.Succs[br]] && b.Succs[br] != h {
-								// allowed only if it leads straight out (break/return)
-								for _, s2 := range b.Succs[br].Succs {
-									if body[s2] {
-										okExit = false
+							// on failure the iteration must not be able to come back to the loop header
+							// (edge-threaded: the failure may travel through a result variable first)
+							seenN := map[walkNode]bool{}
+							q := []walkNode{mkNode(b, b.Succs[br])}
+							for len(q) > 0 {
+								nd := q[0]
+								q = q[1:]
+								if seenN[nd] {
+									continue
+								}
+								seenN[nd] = true
+								if nd.b == h {
+									okExit = false
+									break
+								}
+								if !body[nd.b] {
+									continue
+								}
+								for i := range nd.b.Succs {
+									if nd.feasibleEdge(i) {
+										q = append(q, nd.step(i))
 									}
 								}
-							} else if b.Succs[br] == h {
-								okExit = false
 							}
 						}
 					}
@@ -691,3 +704,7 @@ func runC20(c *Check) {
 	// ---- R5 read errors checked in storage readers
 	c.ruleReadErrorsChecked("R5", []string{"storage"}, 10)
 }
+
+// maxDecodedAlloc: a constant bound on a decoded size only counts as a bound if it keeps the
+// allocation proportionate (16M elements); `size <= math.MaxInt64` bounds nothing.
+const maxDecodedAlloc = 1 << 24
